@@ -9,6 +9,7 @@ import Ajson.Props.C12
 import Ajson.Proofs.Fills2
 import Ajson.Proofs.UnpackCanon
 import Ajson.Proofs.CloneSound
+import Ajson.Proofs.MarshalPure
 
 namespace Ajson.Props.C13
 open Ajson Ajson.Heap
@@ -61,6 +62,19 @@ theorem C13_reads_keep_every_value (fmtF : UInt64 → Option Bytes) (fuel : Nat)
     Proofs.unpack_fills fuel h m, Proofs.marshal_fills fmtF fuel h m, Proofs.toStringN_fills fmtF h m,
     Proofs.eq_fills h a b, Proofs.neq_fills h a b, Proofs.cmp_fills o h a b⟩,
    fun _ r f x => ⟨Proofs.absVal_fills r f x, Proofs.getValue_out_fills r x⟩⟩
+
+/-- **and the same answers**: what Marshal, String, the typed getters and Unpack answer does not depend on which reads happened
+before — on any heap, edited trees included (for Unpack: on every sound heap). Marshal is shown to be a function of the heap's
+fields alone (`marshal_pure`: it answers `mtext`, Marshal without the threaded heap), and those fields, the getter answers and
+the sources are the same after any `Fills` step. So reading is invisible to later reads: any node may be read at any time, in any
+order, any number of times, through any of these accessors, with the same answer. -/
+theorem C13_answers_do_not_depend_on_earlier_reads (fmtF : UInt64 → Option Bytes) {h h' : Heap} (r : Proofs.Fills h h') (fuel : Nat) (n : Nat) :
+    (h'.marshal fmtF fuel n).2 = (h.marshal fmtF fuel n).2 ∧ (h'.toStringN fmtF n).2 = (h.toStringN fmtF n).2 ∧
+    (h'.getNumeric (some n)).2 = (h.getNumeric (some n)).2 ∧ (h'.getString (some n)).2 = (h.getString (some n)).2 ∧
+    (h'.getBool (some n)).2 = (h.getBool (some n)).2 ∧
+    (Proofs.Struct h → n < h.size → ∀ v, (h'.unpack fuel n).2 = .ok v ↔ (h.unpack fuel n).2 = .ok v) :=
+  ⟨Proofs.marshal_same_after_reads fmtF r fuel n, Proofs.toString_same_after_reads fmtF r n, Proofs.getNumeric_out_fills r n,
+   Proofs.getString_out_fills r n, Proofs.getBool_out_fills r n, fun hs hn v => Proofs.unpack_same_after_reads hs r fuel n hn v⟩
 
 /-- reads compose: any sequence of them is one `Fills` step -/
 theorem C13_reads_compose {a b c : Heap} (r1 : Proofs.Fills a b) (r2 : Proofs.Fills b c) : Proofs.Fills a c := r1.trans r2
